@@ -61,10 +61,10 @@ Definition reslice (s : state) (n : Z) : res (option (state * Z)) :=
       do s' <- set_len s (l + n'); Ok (Some (s', l))
   else Ok None.
 
-(* grow returns (state, (index, error code)); error code 0 = nil.  o = oracle capacity. *)
-Definition grow (s : state) (n : Z) (o : Z) : res (state * (Z * Z)) :=
-  let x := blen s - rpos s in
-  do s1 <- (if (x =? 0) && negb (rpos s =? 0) then set_len (with_rpos s 0) 0 else Ok s);
+(* grow returns (state, (index, error code)); error code 0 = nil.  o = oracle capacity.
+   grow_body is the part of grow after the "empty but read cursor not at 0" reset; x = len - rpos
+   as computed on entry. *)
+Definition grow_body (s1 : state) (x n o : Z) : res (state * (Z * Z)) :=
   let lim := limit s1 in
   if (0 <? lim) && (lim <=? x) then Ok (s1, (0, ErrLimit)) else
   let n := if (0 <? lim) && (lim <? n) then lim else n in
@@ -96,6 +96,11 @@ Definition grow (s : state) (n : Z) (o : Z) : res (state * (Z * Z)) :=
         let s2 := St (b ++ repeat 0 (Z.to_nat (nc - len b))) (len b) 0 lim false in
         do s3 <- set_len s2 (x + n); Ok (s3, (x, 0))
   end.
+
+Definition grow (s : state) (n : Z) (o : Z) : res (state * (Z * Z)) :=
+  let x := blen s - rpos s in
+  do s1 <- (if (x =? 0) && negb (rpos s =? 0) then set_len (with_rpos s 0) 0 else Ok s);
+  grow_body s1 x n o.
 
 Definition quick_slice (s : state) (n : Z) (o : Z) : res (state * (Z * Z)) :=
   do r <- reslice s n;
@@ -327,28 +332,132 @@ Definition abs (s : state) : list Z := drop (rpos s) (buf s).
 (* bytes already read that the buffer still retains (Seek can re-expose them) *)
 Definition past (s : state) : list Z := take (rpos s) (buf s).
 
+Definition byte_list (l : list Z) : Prop := Forall (fun x => 0 <= x < 256) l.
+
 Definition inv (s : state) : Prop :=
-  0 <= rpos s /\ rpos s <= blen s /\ blen s <= len (mem s) /\ (isnil s = true -> mem s = []).
+  0 <= rpos s /\ rpos s <= blen s /\ blen s <= len (mem s) /\ (isnil s = true -> mem s = []) /\
+  byte_list (mem s).
 Definition lim_ok (s : state) : Prop := 0 < limit s -> blen s <= limit s.
 
-(* arguments a caller may pass: lengths are lengths, widths are 1/2/4/8, positions are
-   non-negative and far from overflow, a reader returns at most the bytes requested *)
+(* arguments a caller may pass: byte slices hold bytes, lengths are lengths, widths are 1/2/4/8,
+   positions are non-negative (a negative index panics in Go like any negative index), a reader
+   returns at most the 16 KiB it was offered *)
 Definition width_ok (w : Z) : Prop := w = 1 \/ w = 2 \/ w = 4 \/ w = 8.
 Definition op_ok (o : op) : Prop :=
   match o with
+  | OWrite b => byte_list b
   | OWriteFixed w _ => width_ok w
-  | OWritePos w p _ => width_ok w /\ 0 <= p < 4611686018427387904
+  | OWriteBytes b => byte_list b
+  | OWritePos w p _ => width_ok w /\ 0 <= p
   | ORead n => 0 <= n
   | OReadFixed w => width_ok w
-  | OReadFrom rs => Forall (fun r => len (fst (fst r)) <= bufSize) rs
+  | OReadFrom rs => Forall (fun r => len (fst (fst r)) <= bufSize /\ byte_list (fst (fst r))) rs
   | _ => True
   end.
 
-(* the queue-level effect of one step: what was taken from the front, what was appended *)
 Definition is_write (o : op) : bool :=
   match o with OWrite _ | OWriteFixed _ _ | OWriteBytes _ | OReadFrom _ => true | _ => false end.
 Definition is_read (o : op) : bool :=
   match o with ORead _ | OReadFixed _ | OBytes | OWriteTo _ => true | _ => false end.
+(* reads that hand the raw bytes to the caller *)
+Definition is_raw_read (o : op) : bool :=
+  match o with ORead _ | OWriteTo _ => true | _ => false end.
+
+(* everything the readers of a ReadFrom hand out, in order *)
+Definition all_data (rs : list (list Z * Z * Z)) : list Z := concat (map (fun r => fst (fst r)) rs).
+
+(* the bytes an operation appended to the queue, by its arguments and its return value *)
+Definition accepted (o : op) (r : ret) : list Z :=
+  match o, r with
+  | OWrite b, RNE n _ => take n b
+  | OWriteFixed w v, RErr e => if e =? 0 then be_bytes w v else []
+  | OWriteBytes b, RErr e => if e =? 0 then enc_bytes b else []
+  | OReadFrom rs, RReadFrom n _ _ => take n (all_data rs)
+  | _, _ => []
+  end.
+(* the raw bytes an operation handed to its caller *)
+Definition delivered (o : op) (r : ret) : list Z :=
+  match o, r with
+  | ORead _, RData d _ => d
+  | OWriteTo _, RWriteTo _ _ _ got => got
+  | _, _ => []
+  end.
+
+(* a is what is left of b after dropping a front part *)
+Definition suffix_of (a b : list Z) : Prop := exists c, b = c ++ a.
+
+(* errors a write may report: none, the limit error (only with a limit), too large *)
+Definition wr_err (lim e : Z) : Prop := e = 0 \/ (e = ErrLimit /\ 0 < lim) \/ e = ErrTooLarge.
+
+(* Seek: the target position from the cursor np and the size nb *)
+Definition seek_pos (np nb off wh : Z) : option Z :=
+  if wh =? 0 then (if off <? 0 then None else Some off)
+  else if wh =? 1 then Some (i64 (off + np))
+  else if wh =? 2 then Some (i64 (off + nb))
+  else None.
+
+(* THE SPECIFICATION: one step of the plain byte queue.  q = the unread bytes, p = the bytes
+   already read that are still retained (only Seek and the positional writes can see them);
+   lim = the Limit.  qstep lim p q o r p' q' says: operation o returning r takes the queue from
+   (p, q) to (p', q').  Every return value is determined by (p, q) except the number of bytes a
+   write accepts and how much of p is retained. *)
+Definition qstep (lim : Z) (p q : list Z) (o : op) (r : ret) (p' q' : list Z) : Prop :=
+  match o, r with
+  | OWrite b, RNE n e =>
+      0 <= n <= len b /\ q' = q ++ take n b /\ suffix_of p' p /\ wr_err lim e /\
+      (e = 0 -> n = len b) /\ (e <> 0 -> n < len b \/ b = [])
+  | OWriteFixed w v, RErr e =>
+      wr_err lim e /\ q' = (if e =? 0 then q ++ be_bytes w v else q) /\ suffix_of p' p
+  | OWriteBytes b, RErr e =>
+      wr_err lim e /\ q' = (if e =? 0 then q ++ enc_bytes b else q) /\ suffix_of p' p
+  | OWritePos w pos v, RErr e =>
+      if e =? 0 then pos + w <= len (p ++ q) /\ len p' = len p /\ p' ++ q' = overwrite (p ++ q) pos (be_bytes w v)
+      else p' = p /\ q' = q /\ (e = EOF \/ e = ErrLimit)
+  | ORead n, RData d e =>
+      d = take n q /\ q' = drop n q /\ suffix_of p' (p ++ d) /\ (e = 0 \/ (e = EOF /\ q = [] /\ n <> 0))
+  | OReadFixed w, RVal v e =>
+      (e = 0 /\ rd_uN w q = Ok (v, q') /\ p' = p ++ take w q) \/
+      (e = EOF /\ rd_uN w q = Err EOF /\ v = 0 /\ q' = q /\ p' = p)
+  | OBytes, RData d e =>
+      ((e = 0 /\ rd_bytes q = Ok (d, q')) \/ (e <> 0 /\ rd_bytes q = Err e)) /\
+      suffix_of q' q /\ p' ++ q' = p ++ q
+  | OSeek off wh, RNE n e =>
+      match seek_pos (len p) (len (p ++ q)) off wh with
+      | Some t => if (t <? 0) || (len (p ++ q) <? t)
+                  then e = ErrInvalidIndex /\ n = 0 /\ p' = p /\ q' = q
+                  else e = 0 /\ n = t /\ p' = take t (p ++ q) /\ q' = drop t (p ++ q)
+      | None => (e = ErrInvalidIndex \/ e = ErrWhence) /\ n = 0 /\ p' = p /\ q' = q
+      end
+  | OTruncate n, RErr e =>
+      if n =? 0 then e = 0 /\ q' = [] /\ p' = []
+      else if (n <? 0) || (len q <? n) then e = ErrInvalidIndex /\ q' = q /\ p' = p
+      else e = 0 /\ q' = take n q /\ p' = p
+  | OGrow n, RErr e =>
+      q' = q /\ suffix_of p' p /\ (if n <=? 0 then e = ErrInvalidIndex else wr_err lim e)
+  | OReset, RNone => q' = [] /\ p' = []
+  | OClear, RNone => q' = [] /\ p' = []
+  | OWriteTo _, RWriteTo n e _ got =>
+      0 <= n <= len q /\ got = take n q /\ q' = drop n q /\ p' = p ++ got /\
+      (e = 0 \/ e = ErrSink) /\ (e = 0 -> n = len q)
+  | OReadFrom rs, RReadFrom n e _ =>
+      0 <= n <= len (all_data rs) /\ q' = q ++ take n (all_data rs) /\ suffix_of p' p
+  | _, _ => False
+  end.
+
+(* a history of the specification *)
+Fixpoint qsteps (lim : Z) (p q : list Z) (l : list (op * ret)) (p' q' : list Z) : Prop :=
+  match l with
+  | [] => p' = p /\ q' = q
+  | (o, r) :: l' => exists p1 q1, qstep lim p q o r p1 q1 /\ qsteps lim p1 q1 l' p' q'
+  end.
+
+Fixpoint accepted_all (l : list (op * ret)) : list Z :=
+  match l with [] => [] | (o, r) :: l' => accepted o r ++ accepted_all l' end.
+Fixpoint delivered_all (l : list (op * ret)) : list Z :=
+  match l with [] => [] | (o, r) :: l' => delivered o r ++ delivered_all l' end.
+
+(* the history of an implementation run: its operations paired with what they returned *)
+Definition history (l : list (op * Z)) (rs : list ret) : list (op * ret) := combine (map fst l) rs.
 
 (* ---- the test data generator and the digest used by the correspondence run --------------------- *)
 Fixpoint genb (k : nat) (v : Z) : list Z :=
